@@ -784,8 +784,12 @@ pub fn report(meta: ReportMeta, legs: &[LegResult], total_wall: f64) -> i32 {
             "determinism_rechecked": l.determinism_rechecked,
         }));
     }
+    // one line per listed finding (not per matching signature)
     known_lines.sort();
-    known_lines.dedup();
+    known_lines.dedup_by(|a, b| {
+        let id = |s: &str| s.split(" [").nth(1).and_then(|t| t.split(';').next()).map(|x| x.to_string());
+        id(a) == id(b)
+    });
     for k in &known_lines {
         println!("{}", k);
     }
